@@ -164,20 +164,31 @@ func attachmentParses(tx *types.Transaction) bool {
 	return false
 }
 
-// dryRun executes the transaction against a throw-away copy of r's head state
-// with commits disabled and returns the outcome together with the write
-// buffers of the environment. The pay amount is escrowed the way
-// applyTxOnState does it before calling the VM.
-func dryRun(r *sim.Replica, tx *types.Transaction, header *types.Header, gasLimit int64) (res *dryResult, err error) {
+// checkStateAfter returns a throw-away state: r's head state on which the given transactions (the part of the block
+// that precedes the tx under test) were processed with the validator's strict processing.
+func checkStateAfter(r *sim.Replica, prefix []*types.Transaction, header *types.Header) (*appstate.AppState, error) {
+	cs, err := r.AppState.ForCheck(r.Chain.Head.Height())
+	if err != nil {
+		return nil, err
+	}
+	if len(prefix) > 0 {
+		if _, err := r.Chain.VerifProcessTxs(cs, prefix, header); err != nil {
+			return nil, fmt.Errorf("processing the preceding txs: %v", err)
+		}
+	}
+	return cs, nil
+}
+
+// dryRun executes the transaction against the throw-away state cs (r's head
+// state + the txs preceding it in the block) with commits disabled and returns
+// the outcome together with the write buffers of the environment. The pay
+// amount is escrowed the way applyTxOnState does it before calling the VM.
+func dryRun(r *sim.Replica, cs *appstate.AppState, tx *types.Transaction, header *types.Header, gasLimit int64) (res *dryResult, err error) {
 	defer func() {
 		if rec := recover(); rec != nil {
 			err = fmt.Errorf("dry run panicked: %v", rec)
 		}
 	}()
-	cs, err := r.AppState.ForCheck(r.Chain.Head.Height())
-	if err != nil {
-		return nil, err
-	}
 	sender, _ := types.Sender(tx)
 	if tx.To != nil && tx.Type != types.DeployContractTx && cs.State.GetCodeHash(*tx.To) == nil {
 		return nil, fmt.Errorf("target is not a contract")
@@ -271,8 +282,9 @@ type txCase struct {
 	tx       *types.Transaction
 	sender   common.Address
 	proposer common.Address
-	pre      *snap
-	with     *snap
+	mid       *appstate.AppState // throw-away state right before the tx: parent state + the txs preceding it in the block
+	prefixFee *big.Int           // total fee of the preceding txs (the fee burn is computed on the block's total)
+	with      *snap
 	without  *snap
 	rec      *types.TxReceipt
 	dry      *dryResult
@@ -282,6 +294,11 @@ type txCase struct {
 	op       string // deploy | call | terminate
 	method   string
 	desc     string
+}
+
+func (c *txCase) midBal(a common.Address) *big.Int { return nz(c.mid.State.GetBalance(a)) }
+func (c *txCase) midCStake(a common.Address) *big.Int {
+	return nz(c.mid.State.GetContractStake(a))
 }
 
 func (c *txCase) failf(t *rapid.T, format string, args ...interface{}) {
@@ -347,7 +364,11 @@ func (c *txCase) check(t *rapid.T) {
 		// (a pre-upgrade-11 termination carrying an amount leaves it with the sender)
 		senderPays.Add(senderPays, amount)
 	}
-	burn := math.ToInt(decimal.NewFromBigInt(feeCharged, 0).Mul(decimal.NewFromFloat32(c.burnRate)))
+	// the burnt share is computed on the block's total fee: this tx's part = burn(preceding + this) - burn(preceding)
+	burnOf := func(f *big.Int) *big.Int {
+		return math.ToInt(decimal.NewFromBigInt(f, 0).Mul(decimal.NewFromFloat32(c.burnRate)))
+	}
+	burn := new(big.Int).Sub(burnOf(new(big.Int).Add(nz(c.prefixFee), feeCharged)), burnOf(nz(c.prefixFee)))
 	proposerShare := new(big.Int).Sub(feeCharged, burn)
 	proposerShare.Add(proposerShare, tips)
 
@@ -374,7 +395,7 @@ func (c *txCase) check(t *rapid.T) {
 
 	for _, a := range list {
 		// balance right after execution
-		exec := new(big.Int).Set(c.pre.bal(a))
+		exec := new(big.Int).Set(c.midBal(a))
 		if rec.Success && escrowed && a == C {
 			exec.Add(exec, amount)
 		}
@@ -391,7 +412,7 @@ func (c *txCase) check(t *rapid.T) {
 			exec.Sub(exec, senderPays)
 		}
 		// everything else the block does to the address (block reward), taken from the block without the tx
-		exec.Add(exec, new(big.Int).Sub(c.without.bal(a), c.pre.bal(a)))
+		exec.Add(exec, new(big.Int).Sub(c.without.bal(a), c.midBal(a)))
 		got := c.with.bal(a)
 		if a == P {
 			exec.Add(exec, c.without.idStake(a)).Add(exec, proposerShare)
@@ -568,13 +589,13 @@ func (c *txCase) check(t *rapid.T) {
 	} else {
 		// explicit burns: at most what the contract held (incl. the pay amount), plus for a termination exactly the
 		// half of the stake that is not refunded
-		lo, hi := new(big.Int), new(big.Int).Set(c.pre.bal(C))
+		lo, hi := new(big.Int), new(big.Int).Set(c.midBal(C))
 		if escrowed {
 			hi.Add(hi, amount)
 		}
 		if c.op == "terminate" {
 			if _, gone := applied.dropped[C]; gone {
-				st := c.pre.cStake(C)
+				st := c.midCStake(C)
 				half := new(big.Int).Sub(st, new(big.Int).Quo(st, big.NewInt(2)))
 				lo.Add(lo, half)
 				hi.Add(hi, half)
@@ -604,7 +625,7 @@ func (c *txCase) check(t *rapid.T) {
 				c.failf(t, "deployed embedded contract has code hash %x stake %v, tx says %x / %v", cd.CodeHash[:4], cd.Stake, att.CodeHash[:4], amount)
 			}
 		}
-		if c.op == "terminate" && c.pre.cStake(C).Sign() > 0 && c.with.img.Accounts[C].Contract != nil {
+		if c.op == "terminate" && c.midCStake(C).Sign() > 0 && c.with.img.Accounts[C].Contract != nil {
 			c.failf(t, "successful termination but the contract record is still there")
 		}
 	}
